@@ -953,7 +953,7 @@ fn elem_lists(t: &mut Tab, thorough: bool) {
             add("List.capacity", mk, "op_capacity", "lu>u64", format!("{sc}"), vec![la.clone()], format!("capacity {lt}"));
             add("List.is_empty", mk, "op_is_empty", "lu>b", format!("{sc}"), vec![la.clone()], format!("is_empty {lt}"));
             add("List.push", &["List.new", "List.get"], "op_codes", "lu>lu", format!("{sc} build+for-loop"), vec![la.clone()], format!("codes {lt}"));
-            add("List.get", mk, "op_eq_alias", "lu>b", format!("{sc} ==same-list"), vec![la.clone()], format!("eq {lt} {lt}"));
+            add("List.get", mk, "op_eq_alias", "lu>b", format!("{sc} ==same-list"), vec![la.clone()], format!("eq_alias {lt}"));
             add("List.concat", mk, "op_concat_alias", "lu>lu", format!("{sc} other=same-list"), vec![la.clone()], format!("concat {lt} {lt}"));
             let mut idx: Vec<(u64, &str)> = vec![(0, "0")];
             for (i, il) in [(n.wrapping_sub(1), "len-1"), (n, "len"), (u64::MAX, "u64max")] {
